@@ -316,7 +316,7 @@ package kbin
 //@ func AppendVarintBytes(dst []byte, b []byte) (out []byte)
 //@   mode int bv
 //@   requires disjoint(b, dst)
-//@   prop C17
+//@   prop C17 C18
 //@   nopanic
 //@   modifies elems(dst)
 //@   ensures [int] (sameorigin(out, dst) && cap(out) == cap(dst)) || fresh(out)
